@@ -45,7 +45,8 @@ def cases(draw):
     undeclared = draw(st.booleans())
     base = draw(tstrat.templates(depth=2, max_elems=8, ns_elems=True,
                                  foreign=True, undeclared=undeclared,
-                                 dup_attrs=True, rec=False))
+                                 dup_attrs=True, rec=False, onerror=3,
+                                 onerror_simple=True, fail_p=9))
     return {
         "nodes": base["nodes"], "bindings": base["bindings"],
         "restricted": not undeclared,
